@@ -58,7 +58,7 @@ func judgeC10(hst Hist) *h.Verdict {
 			return v.Failf("handler-panic/"+op.K+"/"+h.PanicFrame(res.Panics[0]), "step %d: handler panicked: %.2000s", step, res.Panics[0])
 		}
 		if res.Status >= 400 {
-			return v.Failf("valid-request-rejected/"+op.K, "step %d: well-formed %s answered %d %.200s", step, op.K, res.Status, res.Body)
+			return v.Failf(rejSig(res)+op.K, "step %d: well-formed %s answered %d %.200s", step, op.K, res.Status, res.Body)
 		}
 		if op.K == "update" && res.Sub != nil && snapshot(res.Sub.supi).NRecords > len(res.Sub.sess) {
 			v.Label("a-record-was-split")
